@@ -286,6 +286,57 @@ def carry_reset_reach(prog: Program) -> RuleResult:
     return r
 
 
+def carry_eval_parent(prog: Program) -> RuleResult:
+    """Each evaluation tells a node which parent it is evaluated under (`self._eval_parent_ = parent`); where the node stands decides how
+    it judges its value.  Until that assignment the field still holds the parent of the *previous* evaluation - possibly of another query
+    that shares the node.  Nothing that looks upward (parent, root, conditions root, 'do I stand as a condition') may be read before it."""
+    from ..callgraph import self_closure
+
+    r = RuleResult("CARRY-EVAL-PARENT", "a node looks upward only after this evaluation told it its parent", floor=3)
+    se = prog.cls(SE)
+    up_names = set(UPWARD) | {"_stands_as_condition_"}
+    # methods / properties of expression classes whose closure looks upward
+    looks_up: Set[str] = set()
+    for c in prog.subclasses(se.qual):
+        for nm, m in c.methods.items():
+            if nm in up_names:
+                looks_up.add(nm)
+    seen = set()
+    for c in sorted(prog.subclasses(se.qual), key=lambda x: x.qual):
+        f = prog.lookup(c.qual, "_evaluate__")
+        if f is None or f.qual in seen:
+            continue
+        seen.add(f.qual)
+        cfg = CFG(f.node)
+        selfn = f.params[0]
+        assigns = [n for n in cfg.nodes if n.kind == "stmt" and isinstance(n.stmt, ast.Assign) and any(isinstance(t, ast.Attribute) and t.attr == "_eval_parent_" and isinstance(t.value, ast.Name) and t.value.id == selfn for t in n.stmt.targets)]
+        if not assigns:
+            continue
+        bad = None
+        for n in cfg.nodes:
+            if n.stmt is None or n in assigns:
+                continue
+            for part in cfg._own_parts(n):
+                for x in ast.walk(part):
+                    hit = None
+                    if isinstance(x, ast.Attribute) and isinstance(x.value, ast.Name) and x.value.id == selfn and isinstance(x.ctx, ast.Load):
+                        if x.attr in up_names and x.attr != "_eval_parent_":
+                            hit = x.attr
+                        else:
+                            m = prog.lookup(c.qual, x.attr)
+                            if m is not None and m.cls is not None and prog.is_subclass(m.cls.qual, se.qual) and m.name not in ("_evaluate__",):
+                                fs, _ = self_closure(prog, c.qual, m, True)
+                                if any(isinstance(y, ast.Attribute) and y.attr in up_names and y.attr != "_eval_parent_" and isinstance(y.ctx, ast.Load) for g in fs for y in walk_local(g.node)):
+                                    hit = f"{x.attr} -> upward"
+                    if hit and not any(cfg.dominates(a.id, n.id) for a in assigns):
+                        bad = bad or (n, hit)
+        r.check(bad is None, f"{f.short}#parent-before-looking-up", site(f, bad[0].stmt) if bad else site(f, assigns[0].stmt), src(assigns[0].stmt),
+                "every upward read is dominated by the assignment of this evaluation's parent",
+                f"`{bad[1] if bad else ''}` is read at line {bad[0].lineno if bad else 0}, before `{src(assigns[0].stmt)}`: the node still sees the parent of its previous evaluation - a sub-expression "
+                "shared by two queries in different roles (f = x.flag; entity(x, f) and entity(x, f == False)) judges its value by the role it had in the query evaluated before")
+    return r
+
+
 def shared_tree(prog: Program) -> RuleResult:
     """Queries may share sub-expressions. Upward navigation (_parent_, _root_, the conditions root) reads one structural parent per node,
     so attaching an expression that already has a parent to a second operator must copy it (or the structure must hold several parents)."""
@@ -518,4 +569,4 @@ def reset_with_evaluation(prog: Program) -> RuleResult:
 
 def run(prog: Program, tier: str) -> List[RuleResult]:
     c1 = carry1(prog)
-    return [c1, carry2(prog), ep_handshake(prog), domain_cache(prog), reset_with_evaluation(prog), carry_shared(prog, c1), carry_abandon(prog), carry_memo_up(prog), shared_tree(prog), carry_reset_reach(prog)]
+    return [c1, carry2(prog), ep_handshake(prog), domain_cache(prog), reset_with_evaluation(prog), carry_shared(prog, c1), carry_abandon(prog), carry_memo_up(prog), shared_tree(prog), carry_reset_reach(prog), carry_eval_parent(prog)]
